@@ -16,7 +16,7 @@ EXPLANATION = ("Necessary structural clauses of C01 decided from MIR/HIR: cluste
                "compression tables (creator enum -> stored tag -> compressor / decompressor); data located at tail - stored size on "
                "both sides; the entropy sampling rewinds the input. Byte equality for any input is not decided."
                " (R11-R13) reader blob extraction [offsets[i], offsets[i+1]), content id -> (cluster, blob) resolution keyed by the values read for that content, creator addresses = position of the info pushed, both vectors of a cluster grow on every successful add_content; (R14) the deduplicating adder keys on the Blake3 of the whole content (= C16-R4)."
-               ' Added later: (R15) the table of content packs has max_id + 1 slots computed in usize; (R16) the cluster index is bounded by 2^20 - 1 where a cluster is made; (R17) a content is rewound before it is queued; (R18) every table is one checked block (no ser_callable in a loop); (R19) positions are asked of the buffering stream, never of the stream under a BufWriter; (R20) the count returned by a direct Write::write decides something (= C09-R7); (R21) the background decoder advances by the bytes each read returned (= C07-R1/R2).')
+               ' Added later: (R15) the table of content packs has max_id + 1 slots computed in usize; (R16) the cluster index is bounded by 2^20 - 1 where a cluster is made; (R17) a content is rewound before it is queued; (R18) every table is one checked block (no ser_callable in a loop); (R19) positions are asked of the buffering stream, never of the stream under a BufWriter; (R20) the count returned by a direct Write::write decides something (= C09-R7); (R21) the background decoder advances by the bytes each read returned (= C07-R1/R2). (R22) the plain / to-be-decoded reader of a cluster is chosen by the stored compression tag.')
 ASSUMPTIONS = ["compression libraries round-trip (lz4, xz2, zstd)", "std::io semantics", "rustc MIR/HIR construction and trait resolution"]
 
 
